@@ -70,18 +70,23 @@ def stmts(n):
                 yield (name,) + kids
 
 
-def render(sh, ctr):
+LABELS = {'distinct': lambda i: i, 'same': lambda i: 0, 'mod2': lambda i: i % 2}
+
+
+def render(sh, ctr, lab=None):
     k = sh[0]
     if k == 'P':
         i = ctr[0]
         ctr[0] += 1
+        if lab is not None:
+            i = lab(i)
         return {'N': f't({i})', 'C': f'tc({i})', 'I': f'ti({i})'}[sh[1]]
     if k == 'if':
-        a = render(sh[1], ctr)
-        b = render(sh[2], ctr)
-        e = render(sh[3], ctr)
+        a = render(sh[1], ctr, lab)
+        b = render(sh[2], ctr, lab)
+        e = render(sh[3], ctr, lab)
         return f'({a} if {b} else {e})'
-    c = [render(x, ctr) for x in sh[1:]]
+    c = [render(x, ctr, lab) for x in sh[1:]]
     if k in BINSYM:
         return f'({c[0]} {BINSYM[k]} {c[1]})'
     if k == 'neg':
@@ -160,35 +165,37 @@ def has_lazy(sh):
     return sh[0] in ('and', 'or', 'if') or any(has_lazy(x) for x in sh[1:] if isinstance(x, tuple))
 
 
-def ev(sh, ctr, truth, raises, log):
-    """reference: evaluation order + laziness + values"""
+def ev(sh, ctr, truth, raises, log, lab=None):
+    """reference: evaluation order + laziness + values (lab maps leaf positions to probe labels; None = identity)"""
     k = sh[0]
     if k == 'P':
         i = ctr[0]
         ctr[0] += 1
+        if lab is not None:
+            i = lab(i)
         log.append(i)
         if i == raises:
             raise Raise()
         return probe_value(i, sh[1], truth)
     if k in ('and', 'or'):
-        a = ev(sh[1], ctr, truth, raises, log)
+        a = ev(sh[1], ctr, truth, raises, log, lab)
         if (k == 'and') == bool(a):
-            return ev(sh[2], ctr, truth, raises, log)
+            return ev(sh[2], ctr, truth, raises, log, lab)
         ctr[0] += count(sh[2])
         return a
     if k == 'if':
         c0 = ctr[0]
         ctr[0] = c0 + count(sh[1])
-        cond = ev(sh[2], ctr, truth, raises, log)
+        cond = ev(sh[2], ctr, truth, raises, log, lab)
         after = ctr[0]
         if cond:
             ctr[0] = c0
-            r = ev(sh[1], ctr, truth, raises, log)
+            r = ev(sh[1], ctr, truth, raises, log, lab)
         else:
-            r = ev(sh[3], ctr, truth, raises, log)
+            r = ev(sh[3], ctr, truth, raises, log, lab)
         ctr[0] = after + count(sh[3])
         return r
-    v = [ev(x, ctr, truth, raises, log) for x in sh[1:]]
+    v = [ev(x, ctr, truth, raises, log, lab) for x in sh[1:]]
     if k == 'add':
         return v[0] + v[1]
     if k == 'sub':
@@ -304,9 +311,10 @@ def bool_positions(sh, ctr, out):
         bool_positions(x, ctr, out)
 
 
-def run_one(sh, truth, raises):
-    """-> (failure message or None, src)"""
-    src = render(sh, [0])
+def run_one(sh, truth, raises, labmode='distinct'):
+    """-> (failure message or None, src); labmode: how leaf positions map to probe labels (identical sub-expressions!)"""
+    lab = None if labmode == 'distinct' else LABELS[labmode]
+    src = render(sh, [0], lab)
     log = []
 
     def mk(typ):
@@ -332,7 +340,7 @@ def run_one(sh, truth, raises):
         res, got = 'exc:' + type(e).__name__, None
     elog = []
     try:
-        exp = ev(sh, [0], truth, raises, elog)
+        exp = ev(sh, [0], truth, raises, elog, lab)
         eres = 'ok'
     except Raise:
         eres, exp = 'raise', None
@@ -371,7 +379,7 @@ def to_tuple(x):
 def run_case(case):
     sh = to_tuple(case['shape'])
     truth = {int(k): v for k, v in case['truth'].items()}
-    msg, src = run_one(sh, truth, case['raises'])
+    msg, src = run_one(sh, truth, case['raises'], case.get('labels', 'distinct'))
     return [Failure(signature(sh), msg, case)] if msg else []
 
 
@@ -418,6 +426,18 @@ def run_job(job):
                             if nt and st.evaluations % 20011 == 0 else None)
                     if msg:
                         st.fail(Failure(signature(sh), msg, {'shape': sh, 'truth': {str(k): v for k, v in truth.items()}, 'raises': raises}))
+                # identical sub-expressions: all probes share one label / alternate between two labels (no raising probe)
+                if count(sh) >= 2:
+                    for labmode, nlab in (('same', 1), ('mod2', 2)):
+                        for bits in itertools.product([True, False], repeat=nlab):
+                            truth = dict(enumerate(bits))
+                            msg, src = run_one(sh, truth, None, labmode)
+                            st.case(nontrivial=True, distinct_by_construction=True, classes=(f'enum:{n}-nodes:labels-{labmode}',),
+                                    sample={'src': src, 'truth': {str(k): v for k, v in truth.items()}, 'labels': labmode}
+                                    if st.evaluations % 20011 == 0 else None)
+                            if msg:
+                                st.fail(Failure(signature(sh), msg, {'shape': sh, 'truth': {str(k): v for k, v in truth.items()},
+                                                                     'raises': None, 'labels': labmode}))
         return st
     _, seed, n = job
 
